@@ -10,6 +10,7 @@ CONSTANTS
   Trim = TRUE
   TrOnly = TRUE
   AxisBy = "dims"
+  LookupBy = "search"
   StepPrec = "step"
   QueryCast = "none"
 CONSTRAINT Export
